@@ -1081,10 +1081,13 @@ class Module(ABC):
         # check if all shapes in comp_inds are the same. If not the case this means
         # the groups in controlled_by_param have different sizes, i.e. due to different
         # number of comps for two different branches. In this case we pad the smaller
-        # groups with -1 to make them the same size.
+        # groups to make them the same size. The padding index is one past the last
+        # row: it is out of bounds, so `.at[inds].set()` ignores it (an index of `-1`
+        # would wrap around and overwrite the last compartment).
         lens = np.array([inds.shape[0] for inds in comp_inds])
         max_len = np.max(lens)
-        pad = lambda x: np.pad(x, (0, max_len - x.shape[0]), constant_values=-1)
+        pad_ind = len(self.base.nodes if key in self.nodes.columns else self.base.edges)
+        pad = lambda x: np.pad(x, (0, max_len - x.shape[0]), constant_values=pad_ind)
         if not np.all(lens == max_len):
             comp_inds = [
                 pad(inds) if inds.shape[0] < max_len else inds for inds in comp_inds
@@ -1094,10 +1097,10 @@ class Module(ABC):
         indices_per_param = jnp.stack(comp_inds)
 
         # Assign dummy param (ignored by nanmean later). This adds a new row to the
-        # `data` (which is, e.g., self.nodes). That new row has index `-1`, which does
-        # not clash with any other node index (they are in
+        # `data` (which is, e.g., self.nodes). That new row has index `pad_ind`, which
+        # does not clash with any other node index (they are in
         # `[0, ..., num_total_comps-1]`).
-        data.loc[-1, key] = np.nan
+        data.loc[pad_ind, key] = np.nan
         param_vals = jnp.asarray([data.loc[inds, key].to_numpy() for inds in comp_inds])
 
         # Set the value which the trainable parameter should take.
